@@ -330,6 +330,13 @@ def run(ctx):
         vs = gen_tree(ctx, i)
         groups_of.append((len(trees), len(vs)))
         trees += vs
+    # every other variant is loaded a SECOND time in its process (after an accepted or a refused first load); some of those after the
+    # first object was merged into, overwriting, from another tree's library
+    for i_, v_ in enumerate(trees):
+        if i_ % 2:
+            v_['twice'] = True
+            if i_ % 4 == 1 and i_ >= 7:
+                v_['then_update'] = trees[i_ - 7]['path']
     upds = [gen_lib_updates(ctx, i) for i in range(ctx.n(12, 120))]
     res = c05.run_jobs(seqs + trees + upds)
     rs, rt, ru = res[:len(seqs)], res[len(seqs):len(seqs) + len(trees)], res[len(seqs) + len(trees):]
@@ -379,6 +386,10 @@ def run(ctx):
         key = 'tree:%s' % vs[0]['path']
         outs = []
         for v, r in zip(vs, rr):
+            if r.get('same_as_first') is False:
+                ctx.violate(key + '|reload', 'a library loaded a second time from the same files%s differs from the first load'
+                            % (' (the first object was merged into in between)' if v.get('then_update') else ''),
+                            {'path': v['path'], 'then_update': v.get('then_update')}, 'same contents', 'different')
             if 'exc' in r:
                 outs.append(('exc', r['exc']))
             elif 'contents' in r:
